@@ -159,6 +159,9 @@ def case_stream(rng, tier):
     kinds = ["missing", "open_err", "read_err", "isdir", "malformed", "malformed", "dsl", "dsl", "dsl_end", "out_schema", "out_x",
              "stdout_write", "stdout_write", "gz_trunc", "join_left", "first_record_early_exit", "target_open", "target_write",
              "target_write", "target_close", "split_write", "redirect_write", "pipe_early_exit", "not_fired", "target_schema", "evicted_target_write", "two_missing", "multi_redirect_close", "prepipe_fail", "join_left", "prepipe_fail", "multi_redirect_close", "join_left"]
+    import os
+    if os.environ.get("VERIF_KINDS"):  # debugging aid: restrict the fault kinds
+        kinds = [k for k in kinds if k in os.environ["VERIF_KINDS"].split(",")]
     while True:
         i += 1
         r = rng.fork("f", i)
@@ -390,7 +393,8 @@ def build_case(r, kind, tier):
         pre = {"false": ["--prepipe", "false"], "nosuch": ["--prepipe", "no-such-command-xyz"], "gunzip_plain": ["--prepipe", "gunzip"],
                "exit3_after_all": ["--prepipex", "sh -c 'cat \"$0\"; exit 3'"], "gunzip_truncated": ["--prepipe", "gunzip"],
                # the command dies from a signal after writing part of its output
-               "killed": ["--prepipex", "sh -c 'head -c 9 \"$0\"; kill -9 $$'"], "killed_term": ["--prepipex", "sh -c 'cat \"$0\"; kill -15 $$'"]}[which]
+               # (the command line is run by sh -c: $$ is that shell, Miller's direct child)
+               "killed": ["--prepipex", "f() { head -c 9 \"$1\"; kill -9 $$; }; f"], "killed_term": ["--prepipex", "f() { cat \"$1\"; kill -15 $$; }; f"]}[which]
         if which == "gunzip_truncated":
             raw = files[names[j]].encode() * 40
             z = gzip.compress(raw)
